@@ -152,20 +152,25 @@ def main(tier, seed):
 
     def rec(i, kind):
         c, r = cases[i], results[i]
-        return dict(kind=kind, label=c['label'], acceptor=c['acceptor'], ops=pd.short_ops(c['ops']), result=pd.summary(r))
+        return pd.replayable(dict(kind=kind, label=c['label'], acceptor=c['acceptor'], ops=pd.short_ops(c['ops']),
+                                  result=pd.summary(r), lenient=c['lenient']), c)
     bad = set(failing['spec']) | set(failing['rest'])
     for i in sorted(bad):
         chk = ('spec', 'c05_spec') if i in set(failing['spec']) else ('rest', 'ends_at_rest')
         dec.report(pd.with_minimal('C12', rec(i, 'crash-hang-or-not-at-rest'), cases[i], chk))
     lenient_diff = 0
+    lenient_samples = []
     for i in failing['corr']:
         if i in bad:
             continue
         if cases[i]['lenient']:
             lenient_diff += 1
+            lenient_samples.append(dict(label=cases[i]['label'], ops=pd.short_ops(cases[i]['ops'])[-6:],
+                                        result=pd.summary(results[i])))
             continue
         dec.report(dict(rec(i, 'model-differs'), theorem='correspondence prov_corr'), no_input=True)
     cov['lenient_inputs_where_model_differs'] = lenient_diff
+    cov['lenient_inputs_where_model_differs_samples'] = lenient_samples[:8]
     if lenient_diff:
         # those correspondence obligations are outside the modelled domain: not counted as obligations
         cov['obligations'] -= 0
@@ -177,6 +182,5 @@ def main(tier, seed):
 
 
 def replay(rec):
-    print(rec.get('label'), rec.get('ops'))
-    print('recorded:', rec.get('result'))
-    return 0
+    corr = ('corr', 'prov_corr', 'stat') if rec.get('lenient') else ('corr', 'prov_corr')
+    return pd.replay_case('C12', rec, [corr, ('spec', 'c05_spec'), ('rest', 'ends_at_rest')])
